@@ -754,7 +754,9 @@ def gen_cs_exec_case(rng, directed=None):
          'incremental': rng.random() < 0.6, 'gap': rng.choice([0, 5, 20, 40]),
          'first_ok': rng.random() < 0.8, 'its': rng.randint(1, 3), 'seed': rng.randint(0, 10 ** 6),
          # who is told: one reporter for all runs, one Codespeed endpoint per experiment, or only one experiment reports
-         'endpoints': rng.choice(['shared', 'shared', 'two', 'two', 'one'])}
+         'endpoints': rng.choice(['shared', 'shared', 'two', 'two', 'one']),
+         # the bad executor has a build step that fails: all its runs share the failed build
+         'build_fails': rng.random() < 0.2}
     c['trigger'] = rng.choice([0, 0, c['benchmarks'], c['benchmarks'], rng.randint(0, c['benchmarks'] * c['invocations'])])
     if directed:
         c.update(directed)
@@ -785,15 +787,21 @@ def run_cs_exec_case(ck, case):
                    'reporting': {'codespeed': {'url': CS_URL['Good'], 'project': 'PG'}}},
             'TB': dict({'suites': ['S'], 'executions': ['Bad']},
                        **({'reporting': {'codespeed': {'url': CS_URL['Bad'], 'project': 'PB'}}} if mode == 'two' else {}))}
+    if case.get('build_fails'):
+        cfg['executors']['Bad']['build'] = ['make bad-exe']
     conf = drive.write_config(wd, cfg)
     vrng = _random.Random(case['seed'])
     produced = {}          # (executor, benchmark) -> samples handed to ReBench so far
     bad_starts = [0]
+    builds = [0]
     order = []             # (executor, benchmark, clock, samples at that moment) per run_completed notification
     with CSWorld() as w:
         def script(rec):
             w.clock += case['gap']
             args = rec['args'].split()
+            if args[0] == '/bin/sh' and len(args) == 1:
+                builds[0] += 1
+                return drive.Outcome(2, 'make: *** No rule to make target\n')      # the (only) build step fails
             exe = 'Bad' if 'bad-exe' in args[0] else 'Good'
             b = args[-1]
             if exe == 'Bad':
@@ -839,7 +847,8 @@ def check_cs_exec_sessions(ck, cases):
         full = case['invocations'] * case['its']
         # a run of the bad executor that got all its invocations done before the binary went away is a normal run;
         # every other one hits 127 itself or is abandoned because a sibling did: a failed run
-        failed = dict((k, k[0] == 'Bad' and len(produced.get(k, [])) < full) for k in keys)
+        failed = dict((k, k[0] == 'Bad' and (len(produced.get(k, [])) < full or bool(case.get('build_fails'))))
+                      for k in keys)
         endpoints = sorted(set(u for u in (cs_endpoint_of(case, k) for k in keys) if u))
         per = {}
         for u in endpoints:
@@ -881,6 +890,8 @@ def check_cs_exec_sessions(ck, cases):
         ck.count('codespeed-executor-session: failed runs=%d' % sum(1 for k in keys if failed[k]))
         if aborted_with_data:
             ck.count('codespeed-executor-session: failed run that has samples')
+        if case.get('build_fails'):
+            ck.count('codespeed-executor-session: failing build shared by %d runs' % sum(1 for k in keys if k[0] == 'Bad'))
         ck.case(nontrivial_key=('cse', json.dumps(case, sort_keys=True)),
                 sample={'case': case, 'requests': dict((u, len(p['reqs'])) for u, p in per.items())})
         if r.crash:
@@ -952,6 +963,10 @@ def canon_cs_entry_keyed(e, idx):
 
 
 CS_EXEC_DIRECTED = [
+    # a failing build shared by several runs
+    {'build_fails': True, 'endpoints': 'shared', 'incremental': False, 'scheduler': 'batch', 'invocations': 1, 'benchmarks': 3, 'trigger': 99},
+    {'build_fails': True, 'endpoints': 'shared', 'incremental': True, 'scheduler': 'round-robin', 'invocations': 2, 'benchmarks': 2, 'trigger': 99, 'gap': 40},
+    {'build_fails': True, 'endpoints': 'two', 'incremental': False, 'scheduler': 'random', 'invocations': 1, 'benchmarks': 2, 'trigger': 99},
     # runs that do not share their reporters
     {'endpoints': 'two', 'incremental': False, 'scheduler': 'batch', 'invocations': 1, 'benchmarks': 2, 'trigger': 99},
     {'endpoints': 'two', 'incremental': True, 'scheduler': 'round-robin', 'invocations': 2, 'benchmarks': 2, 'trigger': 2, 'gap': 0},
@@ -1010,6 +1025,12 @@ def check_sessions(ck, n_scen, seeds=None):
         cfg = {'default_experiment': 'T', 'default_data_file': 't.data', 'runs': {'invocations': inv},
                'benchmark_suites': {'S': suite}, 'executors': {'E': {'path': '.', 'executable': 'exe'}},
                'experiments': {'T': {'suites': ['S'], 'executions': ['E']}}}
+        # the same runs selected by two experiments that share the data file (executed with `all`): every run is
+        # still one run, every data point is recorded once
+        shared = rng.random() < 0.4
+        if shared:
+            cfg['default_experiment'] = 'all'
+            cfg['experiments']['T2'] = {'suites': ['S'], 'executions': ['E'], 'description': 'the same once more'}
         conf = drive.write_config(wd, cfg)
         fail_bench = set(b for b in NAMES[:n_b] if rng.random() < 0.2)      # fail in both sessions
         late_bench = set(b for b in NAMES[:n_b] if b not in fail_bench and rng.random() < 0.4)
@@ -1044,7 +1065,9 @@ def check_sessions(ck, n_scen, seeds=None):
                                      'samples': smp, 'b': b, 'c': c})
         if special:
             ck.count('cli-session with braces / $ in identifying values')
-        inp = {'session': {'scenario_seed': scen_seed, 'benchmarks': n_b, 'invocations': inv, 'warmup': warm, 'cores': cores,
+        if shared:
+            ck.count('cli-session: runs shared by two experiments on one data file')
+        inp = {'session': {'scenario_seed': scen_seed, 'shared_by_two_experiments': shared, 'benchmarks': n_b, 'invocations': inv, 'warmup': warm, 'cores': cores,
                            'extra_args': extras, 'input_sizes': sizes, 'variable_values': varvals,
                            'failing': sorted(fail_bench), 'resumed': sorted(late_bench),
                            'produced': dict(('%s/%s' % (k[0], '/'.join(k[1])), v) for k, v in produced.items())}}
